@@ -104,6 +104,8 @@ class Run:
             self.jobs.append(("hist", self.next_tid, props, (cfgs_by_id[cid], hist)))
             self.next_tid += 1
         self.sched_stats[name] = len(sch)
+        if kw.get("simulate") or limit is not None:
+            self.exhaustive = False
         self.models.append(dict(name=name, cfgs=cfgs, schedules=len(sch), states=r.distinct, transitions=r.generated,
                                 wall_s=round(r.wall, 1), emit=True))
         return len(sch)
